@@ -478,6 +478,16 @@ class C15(World):
         sim = self.sim
         n_ops = 1 + ch.pick("n_ops", 6)
         clients = {}
+        if ch.flag("hist.prefill", 0.5):
+            # most interesting states need a profile to be held already: start from a warm cache
+            saved = (self.faults_on, self.force_beh)
+            self.faults_on, self.force_beh = False, peers.B_SPEC
+            for slot in self.slots:
+                if slot.n not in clients:
+                    clients[slot.n] = self.make_client(slot)
+                op = self.do_call(clients[slot.n], slot, "prefill", {})
+            self.faults_on, self.force_beh = saved
+            self.probe_all("after prefill", charge=False)
         for k in range(n_ops):
             slot = self.slots[ch.pick("op.slot", len(self.slots))]
             if slot.n not in clients or ch.flag("op.restart", 0.25):
